@@ -18,17 +18,15 @@ theorem good_applyFilters (il ce cv : Bool) (fs : List Nat) (e : Expr) (h : Good
   | cons f fs ih => exact ih (.filt f e) (by simpa [GoodE] using h)
 
 theorem bal_next_nil {i top rest σ σ'} (b : Bal i top rest σ σ') (hn : σ.next = []) : σ'.next = [] := by
-  rcases b.next with h | h
-  · rw [h, hn]
-  · exact h
+  rw [b.next, hn]
 
 theorem RetE.of_ne {o : Outcome} (h : ∀ v, o ≠ .ret v) : RetE o := fun v hv => absurd hv (h v)
 
 /-- the layer a guarded `<%call>` hands to its callee -/
 theorem call_layer_rel (sc : Scope) (bodyArgs : List Name) (body : Tmpl) (mod : Nat)
     (hg : Good (bodyScope sc body) false false true true body = true)
-    (hcb : GoodCB { sc with top := false } body = true) :
-    LayerRel ⟨collectDefs (.seq (callDefs { sc with top := false } body)
+    (hcb : GoodCB { sc with top := false, cd := false } body = true) :
+    LayerRel ⟨collectDefs (.seq (callDefs { sc with top := false, cd := false } body)
                 (.defn 0 bodyArgs { ownLoops := ownsLoops sc body, deco := false, lex := true }
                    (.seq (.seq (bodyHoist (bodyScope sc body) body) (.prim .getWriter))
                          (.seq (stmts (bodyScope sc body) body) (.ret emptyStr))))), mod⟩
@@ -109,78 +107,96 @@ theorem rc_stmt (n : Nat) (ih : ∀ m, m < n + 1 → RC ts k m) : StmtRef ts k (
   | call e bodyArgs body =>
     simp only [Good, Bool.and_eq_true] at hg
     simp only [stmts] at he
-    obtain ⟨o0, l0, σ0, h0, hcase⟩ := exec_seq_inv (progOf ts k) he
-    have hset : o0 ≠ .timeout → o0 = .normal ∧ l = l0 ∧ { σ with next := ⟨collectDefs
-        (.seq (callDefs { sc with top := false } body)
+    -- `__M_nextcaller = context.caller_stack.nextcaller`
+    obtain ⟨os, ls, σs, hs0, hcase0⟩ := exec_seq_inv (progOf ts k) he
+    have hsave : os ≠ .timeout → os = .normal ∧ { l with savedNext := σ.next } = ls ∧ σ = σs := by
+      intro hto
+      obtain ⟨n2, rfl⟩ := exec_pos (progOf ts k) hs0 hto
+      rw [exec_prim] at hs0
+      simp only [execPrim, Prod.mk.injEq] at hs0
+      obtain ⟨rfl, rfl, rfl⟩ := hs0
+      exact ⟨rfl, rfl, rfl⟩
+    rcases hcase0 with ⟨rfl, he1⟩ | ⟨hne, rfl, rfl, rfl⟩
+    · obtain ⟨_, rfl, rfl⟩ := hsave (by simp)
+      obtain ⟨n1, rfl⟩ := exec_pos (progOf ts k) he1 ho
+      have hl' : LocOK { l with savedNext := σ.next } := ⟨hl.funs, hl.caller, hl.lexc⟩
+      have hR' : RelC cv { l with savedNext := σ.next } σ E :=
+        ⟨hR.vars, hR.loops, hR.nb, hR.nf, hR.funs, hR.mod, hR.cview, hR.lcaller⟩
+      obtain ⟨o0, l0, σ0, h0, hcase⟩ := exec_seq_inv (progOf ts k) he1
+      have hset : o0 ≠ .timeout → o0 = .normal ∧ { l with savedNext := σ.next } = l0 ∧
+          { σ with next := ⟨collectDefs
+        (.seq (callDefs { sc with top := false, cd := false } body)
           (.defn 0 bodyArgs { ownLoops := ownsLoops sc body, deco := false, lex := true }
             (.seq (.seq (bodyHoist (bodyScope sc body) body) (.prim .getWriter))
               (.seq (stmts (bodyScope sc body) body) (.ret emptyStr))))), l.mod⟩ :: l.caller } = σ0 := by
-      intro hto
-      obtain ⟨n2, rfl⟩ := exec_pos (progOf ts k) h0 hto
-      simp only [exec, Prod.mk.injEq] at h0
-      obtain ⟨rfl, rfl, rfl⟩ := h0
-      exact ⟨rfl, rfl, rfl⟩
-    rcases hcase with ⟨rfl, h1⟩ | ⟨hne, rfl, rfl, rfl⟩
-    · obtain ⟨_, rfl, rfl⟩ := hset (by simp)
-      obtain ⟨n2, rfl⟩ := exec_pos (progOf ts k) h1 ho
-      obtain ⟨ow, lw, σw, o2, hwr, htow, hfin, hc⟩ := exec_tryFinally_inv (progOf ts k) h1 ho
-      obtain ⟨n3, rfl⟩ := exec_pos (progOf ts k) hwr htow
-      rw [exec_prim] at hfin
-      simp only [execPrim, Prod.mk.injEq] at hfin
-      obtain ⟨rfl, rfl, rfl⟩ := hfin
-      have ho' : o = ow := by
-        rcases hc with ⟨_, h⟩ | ⟨h, _⟩
-        · exact h
-        · exact absurd rfl h
-      subst ho'
-      -- the state with the pending caller
-      have hlay := call_layer_rel sc bodyArgs body l.mod hg.2 hg.1.2
-      have hσ1 : StOK { σ with next := ⟨collectDefs
-          (.seq (callDefs { sc with top := false } body)
-            (.defn 0 bodyArgs { ownLoops := ownsLoops sc body, deco := false, lex := true }
-              (.seq (.seq (bodyHoist (bodyScope sc body) body) (.prim .getWriter))
-                (.seq (stmts (bodyScope sc body) body) (.ret emptyStr))))), l.mod⟩ :: l.caller } := by
-        refine ⟨hσ.frames, ?_⟩
-        intro layer hlayer
-        rcases List.mem_cons.mp hlayer with rfl | h
-        · have hws := (emits (.call e bodyArgs body)).stmts sc
-          simp only [stmts] at hws
-          cases hws with
-          | seq ha _ => cases ha
-          | callTag _ hd => exact collectDefs_ok hd
-        · exact hl.caller layer h
-      have hR1 : RelC cv l { σ with next := ⟨collectDefs
-          (.seq (callDefs { sc with top := false } body)
-            (.defn 0 bodyArgs { ownLoops := ownsLoops sc body, deco := false, lex := true }
-              (.seq (.seq (bodyHoist (bodyScope sc body) body) (.prim .getWriter))
-                (.seq (stmts (bodyScope sc body) body) (.ret emptyStr))))), l.mod⟩ :: l.caller } E :=
-        ⟨hR.vars, hR.loops, hR.nb, hR.nf, hR.funs, hR.mod, hR.cview, hR.lcaller⟩
-      simp only [exec] at hwr
-      generalize hx : eval (progOf ts k) n3 e l _ = y at hwr
-      obtain ⟨r, σ1⟩ := y
-      have g := (ih n3 (by omega)).eval e il true cv l _ E
-        (((0, ⟨bodyArgs, noFlags, body, .body, E.mod⟩) :: Spec.callDefsOf E.mod body) :: E.caller) i top rest r σ1 hg.1.1 hR1
-        (NSRel.cons (by rw [← hR.mod]; exact hlay) hR.lcaller) (fun h => by cases h) hil hl hσ1 hb hx
-      cases r with
-      | timeout => simp only [Prod.mk.injEq] at hwr; exact absurd hwr.1.symm htow
-      | val v =>
-        simp only [Prod.mk.injEq] at hwr; obtain ⟨rfl, rfl, rfl⟩ := hwr
-        obtain ⟨o1, hb1, p1, m1, e1⟩ := g (by simp)
-        refine ⟨o1 ++ v, E.vars, by simp [hb1, hw, writeTo], ⟨m1 + 1, fun m hm => ?_⟩, hR.vars, Keep.refl _,
-          RetE.of_ne (by simp)⟩
-        obtain ⟨m, rfl⟩ := Nat.exists_eq_add_of_le' (by omega : 1 ≤ m)
-        have := e1 m (by omega)
-        simp only at this
-        simp [Spec.snodes, this, convV, conv]
-      | exc x =>
-        simp only [Prod.mk.injEq] at hwr; obtain ⟨rfl, rfl, rfl⟩ := hwr
-        obtain ⟨o1, hb1, p1, m1, e1⟩ := g (by simp)
-        refine ⟨o1, E.vars, by simpa using hb1, ⟨m1 + 1, fun m hm => ?_⟩, hR.vars, Keep.refl _, RetE.of_ne (by simp)⟩
-        obtain ⟨m, rfl⟩ := Nat.exists_eq_add_of_le' (by omega : 1 ≤ m)
-        have := e1 m (by omega)
-        simp only at this
-        simp [Spec.snodes, this, convV, conv]
-    · exact absurd (hset ho).1 hne
+        intro hto
+        obtain ⟨n2, rfl⟩ := exec_pos (progOf ts k) h0 hto
+        simp only [exec, Prod.mk.injEq] at h0
+        obtain ⟨rfl, rfl, rfl⟩ := h0
+        exact ⟨rfl, rfl, rfl⟩
+      rcases hcase with ⟨rfl, h1⟩ | ⟨hne, rfl, rfl, rfl⟩
+      · obtain ⟨_, rfl, rfl⟩ := hset (by simp)
+        obtain ⟨n2, rfl⟩ := exec_pos (progOf ts k) h1 ho
+        obtain ⟨ow, lw, σw, o2, hwr, htow, hfin, hc⟩ := exec_tryFinally_inv (progOf ts k) h1 ho
+        obtain ⟨n3, rfl⟩ := exec_pos (progOf ts k) hwr htow
+        rw [exec_prim] at hfin
+        simp only [execPrim, Prod.mk.injEq] at hfin
+        obtain ⟨rfl, rfl, rfl⟩ := hfin
+        have ho' : o = ow := by
+          rcases hc with ⟨_, h⟩ | ⟨h, _⟩
+          · exact h
+          · exact absurd rfl h
+        subst ho'
+        -- the state with the pending caller
+        have hlay := call_layer_rel sc bodyArgs body l.mod hg.2 hg.1.2
+        have hσ1 : StOK { σ with next := ⟨collectDefs
+        (.seq (callDefs { sc with top := false, cd := false } body)
+          (.defn 0 bodyArgs { ownLoops := ownsLoops sc body, deco := false, lex := true }
+            (.seq (.seq (bodyHoist (bodyScope sc body) body) (.prim .getWriter))
+              (.seq (stmts (bodyScope sc body) body) (.ret emptyStr))))), l.mod⟩ :: l.caller } := by
+          refine ⟨hσ.frames, ?_⟩
+          intro layer hlayer
+          rcases List.mem_cons.mp hlayer with rfl | h
+          · have hws := (emits (.call e bodyArgs body)).stmts sc
+            simp only [stmts] at hws
+            cases hws with
+            | seq ha _ => cases ha
+            | callTag _ hd => exact collectDefs_ok hd
+          · exact hl.caller layer h
+        have hR1 : RelC cv { l with savedNext := σ.next } { σ with next := ⟨collectDefs
+        (.seq (callDefs { sc with top := false, cd := false } body)
+          (.defn 0 bodyArgs { ownLoops := ownsLoops sc body, deco := false, lex := true }
+            (.seq (.seq (bodyHoist (bodyScope sc body) body) (.prim .getWriter))
+              (.seq (stmts (bodyScope sc body) body) (.ret emptyStr))))), l.mod⟩ :: l.caller } E :=
+          ⟨hR.vars, hR.loops, hR.nb, hR.nf, hR.funs, hR.mod, hR.cview, hR.lcaller⟩
+        simp only [exec] at hwr
+        generalize hx : eval (progOf ts k) n3 e _ _ = y at hwr
+        obtain ⟨r, σ1⟩ := y
+        have g := (ih n3 (by omega)).eval e il true cv _ _ E
+          (((0, ⟨bodyArgs, noFlags, body, .body, E.mod⟩) :: Spec.callDefsOf E.mod body) :: E.caller) i top rest r σ1 hg.1.1 hR1
+          (NSRel.cons (by rw [← hR.mod]; exact hlay) hR.lcaller) (fun h => by cases h) hil hl' hσ1 hb hx
+        cases r with
+        | timeout => simp only [Prod.mk.injEq] at hwr; exact absurd hwr.1.symm htow
+        | val v =>
+          simp only [Prod.mk.injEq] at hwr; obtain ⟨rfl, rfl, rfl⟩ := hwr
+          obtain ⟨o1, hb1, p1, m1, e1⟩ := g (by simp)
+          refine ⟨o1 ++ v, E.vars, by simp [hb1, hw, writeTo], ⟨m1 + 1, fun m hm => ?_⟩, hR.vars, ⟨rfl, rfl, rfl, rfl, rfl⟩,
+            RetE.of_ne (by simp)⟩
+          obtain ⟨m, rfl⟩ := Nat.exists_eq_add_of_le' (by omega : 1 ≤ m)
+          have := e1 m (by omega)
+          simp only at this
+          simp [Spec.snodes, this, convV, conv]
+        | exc x =>
+          simp only [Prod.mk.injEq] at hwr; obtain ⟨rfl, rfl, rfl⟩ := hwr
+          obtain ⟨o1, hb1, p1, m1, e1⟩ := g (by simp)
+          refine ⟨o1, E.vars, by simpa using hb1, ⟨m1 + 1, fun m hm => ?_⟩, hR.vars, ⟨rfl, rfl, rfl, rfl, rfl⟩,
+            RetE.of_ne (by simp)⟩
+          obtain ⟨m, rfl⟩ := Nat.exists_eq_add_of_le' (by omega : 1 ≤ m)
+          have := e1 m (by omega)
+          simp only at this
+          simp [Spec.snodes, this, convV, conv]
+      · exact absurd (hset ho).1 hne
+    · exact absurd (hsave ho).1 hne
   | seq a b =>
     simp only [Good, Bool.and_eq_true] at hg
     simp only [stmts, exec] at he
